@@ -96,6 +96,7 @@ func eventOf(o Obs, e string, a []string) Event {
 // ---------------------------------------------------------------- generators
 
 type gen struct {
+	largeN int // calls of the large flavour made so far
 	terms []string // the single-term texts generated for the expression being built (large inputs)
 	rng *rand.Rand
 	t   Tables
@@ -742,6 +743,20 @@ func (g *gen) longOffset() (Event, int, string) {
 
 func (g *gen) largeCall() Event {
 	pool := g.relatedPool()
+	g.largeN++
+	if g.largeN <= 4 {
+		// by construction, at the start of every large trace: two names that agree in their first 64 / 128 bytes, the needed
+		// one second (and first) in an allowed list that holds both - fixed-width keys, truncated hashes, prefix compares
+		w := 64 * (1 + (g.largeN-1)/2)
+		pre := "LicenseRef-" + strings.Repeat("Vendor-Internal.", w/16)
+		a, b := pre+"-2023", pre+"-2024"
+		l := []string{a, b}
+		if g.largeN%2 == 0 {
+			l = []string{b, a, pre}
+		}
+		e := b + " AND " + a
+		return eventOf(obsSatisfies(e, l), e, l)
+	}
 	g.terms = g.terms[:0]
 	e := g.largeExpr(pool)
 	own := append([]string{}, g.terms...)
